@@ -358,7 +358,7 @@ class Driver:
                         import hashlib
 
                         with open(os.path.join(crash_dir, "driver-crash-%s.txt" % hashlib.sha1(l.encode()).hexdigest()[:12]), "w") as f:
-                            f.write("# %s\n%s\n" % (str(e).replace("\n", " ")[:300], l))
+                            f.write("# %s\n# request of %d characters, first 4000:\n%s\n" % (str(e).replace("\n", " ")[:300], len(l), l[:4000]))
             return out
 
 
